@@ -10,7 +10,6 @@ import argparse
 import glob
 import importlib
 import json
-import multiprocessing as mp
 import os
 import re
 import subprocess
@@ -62,6 +61,55 @@ def replay_external(path):
     return r.returncode == 1, (r.stdout + r.stderr)[-1500:]
 
 
+def run_all(jobs, workers):
+    """Every job runs in its own interpreter (fresh module state) with a hard wall-clock limit: a path that never
+    returns (solver or engine stuck) costs that job, not the whole check."""
+    import tempfile
+    tmp = tempfile.mkdtemp(prefix='vfjobs-')
+    pending = list(jobs)
+    running = []
+    env = dict(os.environ)
+    env['PYTHONPATH'] = VERIF + os.pathsep + vf.REPO + os.pathsep + env.get('PYTHONPATH', '')
+    n = 0
+    try:
+        while pending or running:
+            while pending and len(running) < workers:
+                j = pending.pop(0)
+                n += 1
+                sp = os.path.join(tmp, '%d.spec.json' % n)
+                rp = os.path.join(tmp, '%d.res.json' % n)
+                json.dump(j.spec(), open(sp, 'w'))
+                p = subprocess.Popen([sys.executable, '-B', '-m', 'vf.jobrun', sp, rp], cwd=VERIF, env=env,
+                                     stdout=subprocess.DEVNULL, stderr=open(rp + '.err', 'wb'))
+                hard = j.budget * 1.5 + j.twin_budget + 180
+                running.append((p, j, rp, time.time() + hard))
+            time.sleep(0.05)
+            still = []
+            for (p, j, rp, deadline) in running:
+                rc = p.poll()
+                if rc is None and time.time() < deadline:
+                    still.append((p, j, rp, deadline))
+                    continue
+                if rc is None:
+                    p.kill()
+                    p.wait()
+                    yield {'name': j.name, 'bound': j.bound, 'shape': j.shape, 'params': j.params, 'status': 'inconclusive',
+                           'note': 'hard wall-clock limit hit (engine or solver did not return)', 'wall_s': round(
+                               time.time() - (deadline - (j.budget * 1.5 + j.twin_budget + 180)), 1)}
+                    continue
+                try:
+                    yield json.load(open(rp))
+                except Exception:
+                    err = open(rp + '.err', 'rb').read().decode(errors='replace')[-1500:]
+                    yield {'name': j.name, 'bound': j.bound, 'shape': j.shape, 'params': j.params, 'status': 'error',
+                           'error': 'worker exited with %s: %s' % (rc, err)}
+            running = still
+    finally:
+        for (p, j, rp, deadline) in running:
+            p.kill()
+        subprocess.run(['rm', '-rf', tmp])
+
+
 def main(argv=None):
     ap = argparse.ArgumentParser()
     ap.add_argument('prop')
@@ -78,16 +126,14 @@ def main(argv=None):
     if a.only:
         jobs = [j for j in jobs if re.search(a.only, j.name)]
     jobs.sort(key=lambda j: -j.weight)
-    ctx = mp.get_context('spawn')
     results = []
-    with ctx.Pool(processes=min(a.workers, max(1, len(jobs))), maxtasksperchild=1) as pool:
-        for r in pool.imap_unordered(run_job, [j.spec() for j in jobs]):
-            results.append(r)
-            ex = r.get('explore') or {}
-            print('[%s] %-58s %-12s leaves=%-6s holds=%-6s unk=%-3s cpu=%ss %s' % (
-                prop, r['name'][:58], r['status'], ex.get('leaves', '-'), ex.get('holds', '-'),
-                ex.get('unknown', '-'), ex.get('cpu_s', '-'), (r.get('note') or '')[:60]),
-                flush=True)
+    for r in run_all(jobs, a.workers):
+        results.append(r)
+        ex = r.get('explore') or {}
+        print('[%s] %-58s %-12s leaves=%-6s holds=%-6s unk=%-3s cpu=%ss %s' % (
+            prop, r['name'][:58], r['status'], ex.get('leaves', '-'), ex.get('holds', '-'),
+            ex.get('unknown', '-'), ex.get('cpu_s', '-'), (r.get('note') or '')[:60]),
+            flush=True)
     results.sort(key=lambda r: r['name'])
 
     known = load_known()
